@@ -20,7 +20,28 @@ def c12(run):
                         "bounded exhaustiveness: depth %d" % depth]
 
 
-PROPS = {"C12": c12}
+def c13(run):
+    run.rule = ("TLC enumerates every history up to the depth over the 12 values the reph scan distinguishes (consonants, vowel, "
+                "signs, hasanta, chandrabindu, punctuation, ZWNJ, reph/ro-fola/zo-fola keys) x 8 settings of the other helpers with old "
+                "reph on; checks ImplReph against PropRephSet (conservation for every text, exact placement for texts matching the "
+                "syllable grammar) and replays every history ending in the reph key through the real engine.  Non-trivial = expected text non-empty.")
+    depth = 5 if run.quick() else 6
+    tlc, s = run_tlc_replay(run, "MC_Reph", "MC_Fixed.tla",
+                            dict(spec="Spec", constants={"Depth": depth, "Alphabet": '"reph"'},
+                                 invariants=["ImplRefinesProp", "Emit"]),
+                            "C13", workers=8, threads=8)
+    run.add(tlc, s)
+    # option off: the reph key simply appends its value -- covered by the full alphabet with reph off
+    tlc, s = run_tlc_replay(run, "MC_Fixed_d3", "MC_Fixed.tla",
+                            dict(spec="Spec", constants={"Depth": 3, "Alphabet": '"full"'},
+                                 invariants=["ImplRefinesProp", "Emit"]),
+                            "C13", workers=4, threads=8)
+    run.add(tlc, s)
+    run.assumptions += ["placement clause only for texts matching the syllable grammar of FixedCompose.WellFormed; other texts: conservation",
+                        "bounded exhaustiveness: depth %d over the reph alphabet" % depth]
+
+
+PROPS = {"C12": c12, "C13": c13}
 
 
 def replay_file(run, path):
